@@ -54,3 +54,55 @@ def dot(a, b):
 
 def cross(a, b):
     return a[0] * b[1] - a[1] * b[0]
+
+
+class Mesh:
+    pass
+
+
+def mk_mesh(ctx, coords, cycles, center_stub=None):
+    """build vertices / mesh edges / cells dicts of real repo objects from a plain description:
+    coords: {vid: (x, y)}, cycles: {cid: [vid, ...]} (dict order = construction order).  One SmallEdge per unordered
+    consecutive pair, ids in order of first occurrence starting at 100 (not contiguous with vertex ids on purpose)."""
+    V = cls(ctx, "forsys.vertex", "Vertex")
+    E = cls(ctx, "forsys.edge", "SmallEdge")
+    C = cls(ctx, "forsys.cell", "Cell")
+    if center_stub is None:
+        stub_center(ctx)
+    m = Mesh()
+    m.vertices, m.edges, m.cells = ctx.dict(), ctx.dict(), ctx.dict()
+    m.v, m.e, m.c = {}, {}, {}
+
+    def put(d, k, v):
+        if ctx.mode == "sym":
+            ctx.it.dict_set(d, k, v)
+        else:
+            d[k] = v
+    for vid, (x, y) in coords.items():
+        m.v[vid] = ctx.call(V, vid, x, y)
+        put(m.vertices, vid, m.v[vid])
+    eid = 100
+    seen = {}
+    for cid, cyc in cycles.items():
+        n = len(cyc)
+        for i in range(n):
+            a, b = cyc[i], cyc[(i + 1) % n]
+            key = (min(a, b), max(a, b))
+            if key not in seen:
+                seen[key] = eid
+                m.e[eid] = ctx.call(E, eid, m.v[a], m.v[b])
+                put(m.edges, eid, m.e[eid])
+                eid += 3
+    m.edge_of = seen
+    for cid, cyc in cycles.items():
+        m.c[cid] = ctx.call(C, cid, [m.v[i] for i in cyc])
+        put(m.cells, cid, m.c[cid])
+    KEEP.append(m)
+    return m
+
+
+def mk_frame(ctx, m, frame_id=0, time=0.0, gt=False):
+    F = cls(ctx, "forsys.frames", "Frame")
+    fr = ctx.call(F, frame_id, m.vertices, m.edges, m.cells, time=time, gt=gt)
+    KEEP.append(fr)
+    return fr
